@@ -442,6 +442,9 @@ fn errclass(e: i32) -> &'static str {
 }
 
 pub fn run(args: &Args, rep: &mut Report) {
+    if args.get("kernel").is_some() {
+        return run_kernel(args, rep);
+    }
     let base = args.get("scratch").unwrap_or("/verif/scratch/adhoc").to_string();
     let prop = args.prop.clone();
     for idx in args.indices() {
@@ -698,3 +701,5 @@ pub fn run(args: &Args, rep: &mut Report) {
         }
     }
 }
+
+include!("c10_kernel.rs");
